@@ -112,11 +112,18 @@ def rmsle_abs_tol(y, yh):
     return 8 * 2.220446049250313e-16 * (1.0 + L)
 
 
+SQRT_MIN_NORMAL = 1.5e-154
+
+
 def abs_tol(name, y, yh):
     if name.startswith('r2'):
         return r2_abs_tol(y, yh)
     if name == 'rmsle':
         return rmsle_abs_tol(y, yh)
+    if name in ('rmse', 'rmspe'):
+        # squares of differences below sqrt(min normal) underflow in the textbook evaluation (the result is then
+        # anywhere between 0 and the true root mean square); an evaluation that avoids the underflow is not wrong
+        return SQRT_MIN_NORMAL
     return 0.0
 
 
